@@ -574,4 +574,8 @@ def run(P, R, tier):
         raise AnalysisBroken('no request member sent as a word is filled from a configured text')
     # ... and the strlcpy those copies go through keeps its own promise
     _bnd.fallback_strlcpy(P, R, 'C09.BND.3')
+    # id, address and port are words 0, 2 and 3 of the announcement: the tokenizer that splits the line skips runs of
+    # blanks and terminates each word in place
+    from . import c08 as _c08t
+    _c08t.line_buffer_writes(P, R, 'C09.WMC.5')
     return EXPLANATION, ASSUMPTIONS
